@@ -1263,3 +1263,130 @@ def rf115(run):
     if n < 150:
         raise F.AnalysisBroken('RF115: only %d opcodes compared' % n)
     return n
+
+
+# ---------------------------------------------------------------------------------------------
+# RF116: per-statement state of the scanner is set in every statement before it is read
+# ---------------------------------------------------------------------------------------------
+
+def rf116(run):
+    rule = 'RF116'
+    run.rule(rule, 'MIR_scan_string handles one statement per iteration of its main loop and resets the statement flags at its start.  The '
+                   'instruction code used to classify name operands (label operand of a branch / laddr / switch) is assigned on every '
+                   'path from that reset to each of its reads; otherwise a `ref` or `expr` statement is classified with the opcode of '
+                   'the statement before it (`d: ref f` after a function ending in `jmp L` is rejected)')
+    tu = run.tu('mir')
+    f = tu.func('MIR_scan_string')
+    run.functions_analysed.add(('mir', f.name))
+    cfg = f.cfg
+    var = 'insn_code'
+    reset = [x for x in f.walk() if x['k'] == 'BinaryOperator' and x['op'] == '=' and F.src(F.strip(x['c'][0])) == 'module_p'
+             and 'end_module_p' in F.src(x['c'][1])]
+    if not reset:
+        raise F.AnalysisBroken('MIR_scan_string: the reset of the statement flags was not found')
+    rb = cfg.block_of(reset[0])
+    defs = [x for x in f.walk() if x['k'] == 'BinaryOperator' and x['op'] == '=' and F.src(F.strip(x['c'][0])) == var]
+    def_ids = {id(F.strip(x['c'][0])) for x in defs}
+    reads = [x for x in f.walk() if x['k'] == 'DeclRefExpr' and x['n'] == var and id(x) not in def_ids]
+    if not reads:
+        raise F.AnalysisBroken('MIR_scan_string: no read of insn_code')
+    defb = {cfg.block_of(x) for x in defs}
+    # a definition in the reset block after the reset covers every path
+    B = cfg.blocks[rb]
+    order = [e['i'] for e in B.elems]
+    after_reset = False
+    for x in defs:
+        if cfg.block_of(x) == rb:
+            ids = {y['i'] for y in F.walk(x)}
+            rids = {y['i'] for y in F.walk(reset[0])}
+            pos_d = max((k for k, i_ in enumerate(order) if i_ in ids), default=-1)
+            pos_r = max((k for k, i_ in enumerate(order) if i_ in rids), default=-1)
+            if pos_d > pos_r:
+                after_reset = True
+    reach = set() if after_reset else cfg.reachable_from(rb, avoid=lambda b: b in defb and b != rb)
+    n = 0
+    seen_lines = set()
+    for x in reads:
+        b = cfg.block_of(x)
+        if b is None:
+            continue
+        # a read in a defining block behind the definition is fine
+        if b in defb and b != rb:
+            continue
+        ok = b not in reach or b == rb and False
+        if x['l'] in seen_lines:
+            continue
+        seen_lines.add(x['l'])
+        n += 1
+        run.ob(rule, (x['l'],), ok, {'read at': '%s:%d' % (f.relfile(), x['l']), 'assigned on every path from the statement start': ok})
+        if not ok:
+            run.violation(rule, f, 'stale insn_code', '`insn_code` is read at line %d on a path from the start of the statement that does not assign '
+                          'it: a data, ref or expr statement is classified with the opcode of the previous instruction (its item name becomes a '
+                          'label operand after a branch)' % x['l'], line=x['l'])
+    return n
+
+
+# ---------------------------------------------------------------------------------------------
+# RF118: non-finite floating-point values have a spelling the reading side accepts
+# ---------------------------------------------------------------------------------------------
+
+def _nonfinite_guarded(f, call, need_cp):
+    """the call sits in the else branch of an `if` whose condition holds for every non-finite value (`v != v || v - v != 0`,
+    isnan / isinf), for the C variant in conjunction with c_p"""
+    import re
+    x = call
+    while True:
+        p_ = f.parent_of(x)
+        if p_ is None:
+            return False
+        if p_['k'] == 'IfStmt' and len(p_['c']) > 2 and p_['c'][2] is not None and any(y is x for y in [p_['c'][2]]):
+            cc = F.src(p_['c'][0]).replace(' ', '')
+            selfcmp = re.search(r'([A-Za-z_][\w\.\->\[\]]*)!=\1\b', cc) is not None or ('isnan' in cc and 'isinf' in cc) or '!isfinite' in cc
+            if selfcmp and '&&' not in cc.replace('c_p&&', '', 1 if need_cp else 0) and (not need_cp or cc.lstrip('(').startswith('c_p&&')):
+                return True
+        x = p_
+
+
+def rf118(run, for_c):
+    import re
+    rule = 'RF118c' if for_c else 'RF118'
+    tu = run.tu('mir')
+    if for_c:
+        run.rule(rule, '_MIR_output_data_item_els with c_p (used by mir2c for data items): every `%e`-family conversion of a float / double / '
+                       'long double element is reached only when the value is finite; nan and the infinities are printed as constant '
+                       'expressions (`inf` and `nan` are not C)')
+        sites = [(tu.func('_MIR_output_data_item_els'), True)]
+    else:
+        run.rule(rule, 'text writer: printf prints nan and the infinities as `nan` / `inf`, which MIR_scan_string reads as names (`undeclared '
+                       'name inf`, `no number after a sign`).  Every `%e`-family conversion in MIR_output_op and _MIR_output_data_item_els '
+                       'is reached only for finite values, or the scanner has a spelling for the non-finite ones')
+        sites = [(tu.func('MIR_output_op'), False), (tu.func('_MIR_output_data_item_els'), False)]
+        sc = [tu.func(nm) for nm in ('scan_number', 'scan_token', 'MIR_scan_string')]
+        if any(x['k'] == 'StringLiteral' and x['s'].lower() in ('inf', 'nan', 'inff', 'nanf', 'infl', 'nanl', 'infinity') for g in sc for x in g.walk()):
+            run.ob(rule, ('scanner',), True, {'scanner spells non-finite values': True})
+            return 1
+    n = 0
+    for f, need_cp in sites:
+        run.functions_analysed.add(('mir', f.name))
+        cfg = f.cfg
+        bad = []
+        for x in f.walk():
+            if x['k'] == 'CallExpr' and x.get('callee') == 'fprintf':
+                a = F.call_args(x)
+                fm = F.strip(a[1]) if len(a) > 1 else None
+                if fm is not None and fm['k'] == 'StringLiteral' and re.search(r'%[-+ #0-9.*]*L?[eEgGfF]', fm['s']):
+                    n += 1
+                    ok = _nonfinite_guarded(f, x, need_cp)
+                    run.ob(rule, (f.name, x['l']), ok, {'site': '%s:%d' % (f.relfile(), x['l']), 'format': fm['s'], 'finite values only': ok})
+                    if not ok:
+                        bad.append(x)
+        if bad:
+            run.violation(rule, f, 'non-finite values printed with %e', '%s prints floating-point values with %s (lines %s) also when they are nan or '
+                          'infinite: the output is `nan` / `inf`, which %s' %
+                          (f.name, ', '.join(sorted({F.strip(F.call_args(x)[1])['s'] for x in bad})), ', '.join(str(x['l']) for x in bad),
+                           'is not a C constant (the translation does not compile)' if for_c else
+                           'MIR_scan_string rejects (undeclared name inf): a module with such an immediate or data element cannot be read back from its text'),
+                          line=bad[0]['l'])
+    if n < 3:
+        raise F.AnalysisBroken('%s: only %d floating-point conversions found' % (rule, n))
+    return n
